@@ -697,6 +697,14 @@ func (d *Document) addHeaderReference(headerType HeaderFooterType, headerID stri
 		sectPr.XmlnsR = "http://schemas.openxmlformats.org/officeDocument/2006/relationships"
 	}
 
+	// 同一类型只保留一个引用：重复调用时让已有的引用指向新的页眉
+	for _, existing := range sectPr.HeaderReferences {
+		if existing != nil && existing.Type == string(headerType) {
+			existing.ID = headerID
+			return
+		}
+	}
+
 	headerRef := &HeaderFooterReference{
 		Type: string(headerType),
 		ID:   headerID,
@@ -712,6 +720,14 @@ func (d *Document) addFooterReference(footerType HeaderFooterType, footerID stri
 	// 确保设置关系命名空间
 	if sectPr.XmlnsR == "" {
 		sectPr.XmlnsR = "http://schemas.openxmlformats.org/officeDocument/2006/relationships"
+	}
+
+	// 同一类型只保留一个引用：重复调用时让已有的引用指向新的页脚
+	for _, existing := range sectPr.FooterReferences {
+		if existing != nil && existing.Type == string(footerType) {
+			existing.ID = footerID
+			return
+		}
 	}
 
 	footerRef := &FooterReference{
